@@ -8,6 +8,9 @@
 #include <gudhi/Simplex_tree.h>
 #include <gudhi/graph_simplicial_complex.h>
 #include "common.h"
+#ifdef GUDHI_USE_TBB
+#include <tbb/global_control.h>
+#endif
 using vh::Toks; using vh::L;
 
 struct Opt_fast_cofaces { typedef Gudhi::linear_indexing_tag Indexing_tag; typedef int Vertex_handle; typedef double Filtration_value; typedef std::uint32_t Simplex_key;
@@ -43,7 +46,9 @@ typedef typename ST::Vertex_handle VH;
 
 static S verts(const ST& st, typename ST::Simplex_handle sh) { S v; for (auto x : st.simplex_vertex_range(sh)) v.push_back((int)x); std::sort(v.begin(), v.end()); return v; }
 static std::string W(const S& s) { std::ostringstream o; for (size_t i = 0; i < s.size(); ++i) { if (i) o << ","; o << s[i]; } return o.str(); }
-static long F(double f) { return (long)std::llround(f); }
+static double scale = 1;  // values are printed in units of 1/scale (set by extend)
+static long F(double f) { return (long)std::llround(f * scale); }
+static long F0(double f) { return (long)std::llround(f); }
 static std::vector<VH> tovh(const S& s) { return std::vector<VH>(s.begin(), s.end()); }
 static S words(const Toks& t, size_t from) { S s; for (size_t i = from; i < t.size(); ++i) s.push_back((int)L(t[i])); std::sort(s.begin(), s.end()); s.erase(std::unique(s.begin(), s.end()), s.end()); return s; }
 static std::string Ws(std::vector<S> v) { std::sort(v.begin(), v.end()); std::vector<std::string> o; for (auto& s : v) o.push_back(W(s)); return vh::join(o); }
@@ -82,13 +87,20 @@ static void obs(ST& st, int universe) {
     std::cout << "eq " << (e ? 1 : 0) << "\n"; }
 }
 
-int main() {
+int main(int argc, char** argv) {
+#ifdef GUDHI_USE_TBB
+  tbb::global_control gc(tbb::global_control::max_allowed_parallelism, argc > 1 ? std::atoi(argv[1]) : 2);
+#endif
+  (void)argc; (void)argv;
   ST* st = new ST(); int universe = 5;
-  return vh::run([&] { delete st; st = new ST(); },
+  // operations documented as "call clear_filtration() afterwards" set dirty; the ones that drop the cache themselves do not
+  bool dirty = false;
+  return vh::run([&] { delete st; st = new ST(); scale = 1; dirty = false; },
     [&](const Toks& t) {
       const std::string& o = t[0];
       std::cout << vh::guarded([&]() -> std::string {
         std::ostringstream r;
+        if (o == "ins" || o == "insf" || o == "batch" || o == "rmmax" || o == "assign") dirty = true;
         if (o == "univ") { universe = (int)L(t[1]); return "univ"; }
         if (o == "ins") { S s = words(t, 2); auto sh0 = st->find(tovh(s)); bool isnew = (sh0 == st->null_simplex()); auto res = st->insert_simplex(tovh(s), (typename ST::Filtration_value)L(t[1]));
           r << "ins new=" << (res.second ? 1 : 0) << " h=" << (res.first != st->null_simplex() ? 1 : 0); if (isnew != res.second) r << " flag-mismatch"; return r.str(); }
@@ -103,12 +115,21 @@ int main() {
           if (o == "assign") { S s = words(t, 2); st->assign_filtration(st->find(tovh(s)), (typename ST::Filtration_value)L(t[1])); return "assign"; }
           if (o == "mfnd") { bool m = st->make_filtration_non_decreasing(); return std::string("mfnd ") + (m ? "1" : "0"); }
         }
+        if constexpr (OPT::store_filtration) {
+          if (o == "extend") {
+            auto efd = st->extend_filtration(); double D = efd.maxval - efd.minval; if (D == 0) D = 1; scale = D;
+            r << "extend " << F0(efd.minval) << " " << F0(efd.maxval) << "\ndecode";
+            std::vector<std::pair<S, std::string>> dec;
+            for (auto sh : st->complex_simplex_range()) { auto p = st->decode_extended_filtration(st->filtration(sh), efd); std::ostringstream q; q << W(verts(*st, sh)) << ":"; if (std::isnan((double)p.first)) q << "nan"; else q << F0(p.first);
+              q << "/" << (p.second == Gudhi::Extended_simplex_type::UP ? 0 : p.second == Gudhi::Extended_simplex_type::DOWN ? 1 : 2); dec.push_back({verts(*st, sh), q.str()}); }
+            std::sort(dec.begin(), dec.end()); for (auto& d : dec) r << " " << d.second; return r.str(); }
+        }
         if (o == "obs") { obs(*st, universe); return ""; }
         if (o == "cplx") return cplx_line(*st);
         if (o == "dim") { r << "dim " << st->dimension(); return r.str(); }
         if (o == "find") { S s = words(t, 1); auto sh = st->find(tovh(s)); if (sh == st->null_simplex()) return "find none"; r << "find " << F(st->filtration(sh)); return r.str(); }
         if (o == "star") { S s = words(t, 1); std::vector<S> star; for (auto c : st->star_simplex_range(st->find(tovh(s)))) star.push_back(verts(*st, c)); return "star " + Ws(star); }
-        if (o == "order") { r << "order"; for (auto sh : st->filtration_simplex_range()) r << " " << W(verts(*st, sh)) << ":" << F(st->filtration(sh)); if (st->num_simplices() == 0) r << " "; return r.str(); }
+        if (o == "order") { if (dirty) { st->clear_filtration(); dirty = false; } r << "order"; for (auto sh : st->filtration_simplex_range()) r << " " << W(verts(*st, sh)) << ":" << F(st->filtration(sh)); if (st->num_simplices() == 0) r << " "; return r.str(); }
         return "bad-op"; });
       if (o != "obs") std::cout << "\n"; });
 }
